@@ -230,7 +230,13 @@ def gen_value2(r, depth):
         return o
     # objects as dict values / keys (hashable by identity), enums as values
     o = SL.gen_obj(r, 1)
-    return r.choice([{o: SL.gen_scalar(r)}, {SL.gen_enum(r): o}, [o, o], {SL.gen_int(r): SL.gen_enum(r)}])
+    twin = type(o)()
+    for f in o._fields:
+        setattr(twin, f, getattr(o, f))
+    other = SL.gen_obj(r, 1)
+    # (instances hash by identity: two instances with equal fields are two elements / two keys, before and after a trip)
+    return r.choice([{o: SL.gen_scalar(r)}, {SL.gen_enum(r): o}, [o, o], {SL.gen_int(r): SL.gen_enum(r)},
+                     {o, twin}, {o, twin, other}, {o: 1, twin: 2}, [{o, other}, {twin: other}]])
 
 
 def str_of_len(r, nbytes):
@@ -600,6 +606,13 @@ def oracle(run, reg, vals, bads, d18):
         run.oracle_violation(what, case, site)
 
     good = []
+    fp0 = SL.table_fingerprint()
+
+    def state_unchanged(v, api):
+        if SL.table_fingerprint() != fp0:
+            d = SL.state_diff(state0, SL.process_state())
+            report("process-state-changed", {"api": api, "value": srepr(v)[:300], "changed": d[:6]}, "serializable.py:" + api)
+            raise RuntimeError("process-level serializer state changed by %s of %s; later results would be meaningless" % (api, srepr(v)[:200]))
     for v in vals:
         run.evaluations += 1
         dom = in_domain(v)
@@ -622,6 +635,7 @@ def oracle(run, reg, vals, bads, d18):
         except Exception as e:      # noqa
             report("decode-raises", {"value": srepr(v)[:300], "error": type(e).__name__, "cls": "plain"}, "deserialize_value")
             continue
+        state_unchanged(v, "serialize_value/deserialize_value")
         if shape(x) != want:
             report("roundtrip-differs", {"value": srepr(v)[:300], "decoded": srepr(x)[:300]}, "deserialize_value")
         elif pos != len(b):
@@ -673,6 +687,7 @@ def oracle(run, reg, vals, bads, d18):
             pass
         if out is not None:
             report("dumpb-returns-bytes-for-refused-value", {"value": srepr(v)[:300], "bytes": out[:64].hex()}, "Serializable.dumpb")
+        state_unchanged(v, "serialize_value (refused value)")
     # D18 class: hashable before the trip, a list (unhashable) after it
     for v in d18:
         run.evaluations += 1
@@ -807,6 +822,9 @@ def api_oracle(run, good):
                         st2 = io.BytesIO(b[2:] + rest)
                         o2 = o.deserialize(st2)
                         bad = st.getvalue() != b or o2 is not o or shape(o) != want or st2.tell() != len(b) - 2
+                    if not bad:
+                        api = "__init__(**fields)/dumpb"
+                        bad = type(v)(**{f: getattr(v, f) for f in v._fields}).dumpb() != b
                     if not bad and len(b) < 600:
                         api = "dumpz/loadz"
                         z = v.dumpz()
